@@ -26,6 +26,12 @@ steps of `register_scope_providers` (RREL strings, RREL provider *objects* built
 several keys) and model loads.  Observation per reference: pool and path of the target (= which provider,
 how the name was split).  Compared with (a) the documented precedence + delimiter rule (oracle), (b) the
 Lean model's call list, (c) the same history with the selected expressions written in the grammar.
+
+`env` of a select / multi case (tie X, op `resolve`): the configuration of the meta-model around the provider call —
+`builtins=` (names the model defines as well, names it does not, conforming / non-conforming classes),
+`textx_tools_support`, user classes, `auto_init_attributes`, custom providers that answer `Postponed()` first, names no
+provider finds.  The selected provider must be asked (first, and only it, in every pass), its answer binds the reference,
+builtins are the fall-back, without one the load fails with "Unknown object" at that reference.
 """
 import ast
 import os
@@ -38,6 +44,8 @@ from harness.core import LEAN_DIR, REPO, Check, use_repo
 SCRATCH = "/dev/shm" if os.path.isdir("/dev/shm") and os.access("/dev/shm", os.W_OK) else None
 POOLS = ["pa", "pb", "pe", "pc", "pd"]
 NAMES = ["x", "y", "z"]
+# names no pool holds: a provider asked for them finds nothing (-> builtins fall-back / "Unknown object")
+GHOSTS = ["w", "v"]
 RRELS = ["pa", "pb", "pe", "^pa", "^pb", "^pe", "pa,pb", "pb,pa", "pe,pa"]
 ATTRS = ["t", "ts", "u"]
 GEN_PATH = os.path.join(LEAN_DIR, "TextxVerif", "Gen", "ProviderOrder.lean")
@@ -225,25 +233,98 @@ def linecol(text, pos):
     return line, pos - (text.rfind("\n", 0, pos) + 1) + 1
 
 
+def env_of(case):
+    """the configuration of the meta-model around the provider call (absent in cases of earlier rounds):
+    builtins = [[name, kind]] (kind "A": an object of the referenced class, "R": an object of another rule's class,
+    "py": a foreign Python object), tools = textx_tools_support, classes = user classes for the target rule and / or
+    the referring rules, postpone = tags of custom providers that answer Postponed() when first asked for a reference"""
+    e = case.get("env") or {}
+    return {"builtins": e.get("builtins") or [], "tools": bool(e.get("tools")), "classes": e.get("classes") or "none",
+            "postpone": e.get("postpone") or [], "auto_init": e.get("auto_init", True)}
+
+
+def conforming(case, name):
+    """key of the builtin the fall-back block may use for `name`"""
+    for k, kind in env_of(case)["builtins"]:
+        if k == name:
+            return kind == "A"
+    return False
+
+
+class _Foreign:
+    def __init__(self, name):
+        self.name = name
+
+
+def mm_kwargs(env, target, referring):
+    """keyword arguments of the meta-model constructor for an environment; the builtins dictionary is filled by
+    `fill_builtins` once the classes exist"""
+    kw = {}
+    if env["builtins"]:
+        kw["builtins"] = {}
+    if env["tools"]:
+        kw["textx_tools_support"] = True
+    if not env["auto_init"]:
+        kw["auto_init_attributes"] = False
+    names = ([target] if env["classes"] in ("target", "both") else []) + (
+        list(referring) if env["classes"] in ("refs", "both") else [])
+    if names:
+        def user_class(n):
+            def __init__(self, **kwargs):
+                for k, v in kwargs.items():
+                    setattr(self, k, v)
+
+            return type(n, (), {"__init__": __init__})
+
+        kw["classes"] = [user_class(n) for n in names]
+    return kw
+
+
+def fill_builtins(mm, env, target, other):
+    for key, kind in env["builtins"]:
+        if kind == "py":
+            o = _Foreign(key)
+        else:
+            cls = mm[target if kind == "A" else other]
+            o = cls.__new__(cls)
+            o.name = key
+        mm.builtins[key] = o
+
+
 def impl_select(case):
     use_repo()
     from textx import get_model, metamodel_from_str
     from textx.exceptions import TextXError, TextXSemanticError
+    from textx.scoping import Postponed
 
+    try:
+        from textx.const import UNKNOWN_OBJ_ERROR
+    except ImportError:
+        UNKNOWN_OBJ_ERROR = "Unknown object"
+
+    env = env_of(case)
     log = []
+    asked = set()
+    last_pos = [None]
 
     def mk(tag):
         def provider(obj, attr, obj_ref):
             log.append((tag, obj_ref.position, type(obj).__name__, attr.name))
             for a in get_model(obj).pc:
                 if a.name == obj_ref.obj_name:
+                    # (the last reference of a model is never postponed: textX demands progress in every pass)
+                    if (tag in env["postpone"] and (tag, obj_ref.position) not in asked
+                            and obj_ref.position != last_pos[0]):
+                        asked.add((tag, obj_ref.position))
+                        return Postponed()
                     return a
             return None
 
         return provider
 
     try:
-        mm = metamodel_from_str(grammar_select(case))
+        mm = metamodel_from_str(grammar_select(case), **mm_kwargs(env, "A", [r["name"] for r in case["rules"]]))
+        fill_builtins(mm, env, "A", case["rules"][0]["name"])
         mm.register_scope_providers({k: (mk(v["p"]) if "p" in v else v["s"]) for k, v in case["reg"]})
     except TextXError as e:
         return {"outcome": "mm-error", "cls": type(e).__name__, "msg": str(e)[:200]}
@@ -255,6 +336,8 @@ def impl_select(case):
     while True:
         text, table = render_select(case, rename)
         del log[:]
+        asked.clear()
+        last_pos[0] = table[-1][3]
         loads += 1
         try:
             model = mm.model_from_str(text)
@@ -266,8 +349,11 @@ def impl_select(case):
             if hit and hit[0] not in rename and getattr(e, "err_type", None) is None and loads <= len(table) + 1:
                 rename[hit[0]] = f"n{len(rename)}"
                 continue
+            at = table[hit[0]][3] if hit else None
             return {"outcome": "error", "cls": type(e).__name__, "err_type": getattr(e, "err_type", None),
+                    "unknown": getattr(e, "err_type", None) == UNKNOWN_OBJ_ERROR,
                     "ref": hit[0] if hit else None, "msg": str(e)[:200], "loads": loads,
+                    "custom": [t for (t, p, _, _) in log if p == at],
                     "renamed": sorted(rename)}
         except TextXError as e:
             return {"outcome": "error", "cls": type(e).__name__, "err_type": getattr(e, "err_type", None), "ref": None,
@@ -276,6 +362,9 @@ def impl_select(case):
             return {"outcome": "other", "cls": type(e).__name__, "msg": str(e)[:200], "loads": loads}
 
     def pool(o):
+        for key, b in (mm.builtins or {}).items():
+            if o is b:
+                return "builtin:" + key
         for p in POOLS:
             if any(o is q for q in getattr(model, p)):
                 return p
@@ -321,18 +410,71 @@ def expected_select(case):
     return out
 
 
-def matches(exp, ref):
-    """does the observation of one reference show provider `exp` being called?"""
-    if not ref["name_ok"]:
-        return False
+def select_names(case):
+    """the name written at every reference, in text order (as `expected_select`)"""
+    out = []
+    for o in case["objs"]:
+        out.append(o["t"])
+        out += list(o.get("ts") or [])
+        if o.get("u"):
+            out.append(o["u"])
+    return out
+
+
+def demanded(case, exp, name, last=False):
+    """what the property statement demands for one reference: (calls of custom providers, result);
+    result = ("bound", pool, handed to the default provider) | ("unknown",).  The selected provider is asked — once, or
+    once per pass while it postpones —, its answer binds the reference; only when it finds nothing the builtin of that
+    name (of a conforming class) is used, and without one the load fails at this reference."""
+    found = name in NAMES
     if exp[0] == "custom":
-        return ref["custom"] == [exp[1]] and ref["pool"] == "pc" and not ref["as_default"]
-    if exp[0] == "rrel":
-        return ref["custom"] == [] and ref["pool"] == pool_of(exp[1]) and not ref["as_default"]
-    return ref["custom"] == [] and ref["pool"] == "pd" and ref["as_default"]
+        calls = [exp[1]] * (2 if found and exp[1] in env_of(case)["postpone"] and not last else 1)
+    else:
+        calls = []
+    if found:
+        pool = "pc" if exp[0] == "custom" else pool_of(exp[1]) if exp[0] == "rrel" else "pd"
+        return calls, ("bound", pool, exp[0] == "default")
+    if conforming(case, name):
+        return calls, ("bound", "builtin:" + name, False)
+    return calls, ("unknown",)
+
+
+def shown(dem, ref):
+    """does the observation of one (resolved) reference show what `dem` = (custom calls, result) says?"""
+    calls, res = dem
+    return (res[0] == "bound" and ref["name_ok"] and ref["custom"] == calls and ref["pool"] == res[1]
+            and ref["as_default"] == res[2])
+
+
+def check_select(case, obs, dems, who):
+    """compare a whole observation with the demands for all references (text order = resolution order)"""
+    bad = [k for k, d in enumerate(dems) if d[1][0] == "unknown"]
+    if bad:
+        k = bad[0]
+        if obs["outcome"] != "error" or not obs.get("unknown") or obs.get("ref") != k:
+            return (f"reference #{k} `{select_names(case)[k]}`: {who} its provider finds nothing and there is no "
+                    f"conforming builtin, 'Unknown object' expected there; implementation: {obs}")
+        if obs.get("custom") != dems[k][0]:
+            return (f"reference #{k} `{select_names(case)[k]}` (not resolvable): {who} custom providers {dems[k][0]} "
+                    f"are asked, the implementation asked {obs.get('custom')}")
+        want = [i for i, d in enumerate(dems[:k]) if d[1][0] == "bound" and d[1][2]]
+        if obs.get("renamed") != want:
+            return f"references handed to the default provider before #{k}: {obs.get('renamed')}, {who} {want}"
+        return None
+    if obs["outcome"] != "ok":
+        return f"model does not load: {obs}"
+    if len(dems) != len(obs["refs"]):
+        return f"{len(obs['refs'])} references observed, {len(dems)} written"
+    for k, (d, ref) in enumerate(zip(dems, obs["refs"])):
+        if not shown(d, ref):
+            return (f"reference #{k} ({ref['cls']}.{ref['attr']}[{ref['j']}] `{select_names(case)[k]}`): {who} "
+                    f"custom calls {d[0]}, result {d[1]}; the implementation called {describe(ref)}")
+    return None
 
 
 def describe(ref):
+    if (ref["pool"] or "").startswith("builtin:"):
+        return f"custom provider(s) {ref['custom']} and bound the reference to {ref['pool']}"
     if ref["custom"]:
         return f"custom provider(s) {ref['custom']} (target in {ref['pool']})"
     if ref["as_default"]:
@@ -600,11 +742,16 @@ def m_target(case, call, name):
     """[pool, path] the call resolves to in the generated model, None when it finds nothing"""
     tree = [list(p) for p in case["tree"]]
     if call[0] == "default":
-        return ["pd", [name]] if name in PD_NAMES else None
-    if call[0] == "user":
+        got = ["pd", [name]] if name in PD_NAMES else None
+    elif call[0] == "user":
         parts = re.split(r"::|/|\.", name)
-        return ["pc", parts] if parts in tree else None
-    return [pool_of(call[1]), list(call[3])] if list(call[3]) in tree else None
+        got = ["pc", parts] if parts in tree else None
+    else:
+        got = [pool_of(call[1]), list(call[3])] if list(call[3]) in tree else None
+    if got is None and conforming(case, name):
+        # the provider was asked and found nothing: fall-back to the builtin of that name
+        return ["builtin", [name]]
+    return got
 
 
 def m_check_step(case, step, calls, ob, who):
@@ -696,7 +843,13 @@ def impl_multi(case):
                 out.append(create_rrel_scope_provider(pv["expr"], split_string=pv["split"]))
         return out
 
+    env = env_of(case)
+    rule_names = [r["name"] for r in case["rules"]]
+
     def where(model, o):
+        for key, b in (model._tx_metamodel.builtins or {}).items():
+            if o is b:
+                return ["builtin", [key]]
         path = []
         while True:
             path.append(o.name)
@@ -740,7 +893,8 @@ def impl_multi(case):
         for si, (reg_list, idxs) in enumerate(m_states(case)):
             g = grammar_of_state(si, reg_list)
             if g is not None:
-                mm = metamodel_from_str(g)
+                mm = metamodel_from_str(g, **mm_kwargs(env, "Item", rule_names))
+                fill_builtins(mm, env, "Item", "Package")
                 objs = objects()
             rl = reg_of_state(si, reg_list)
             if rl is not None:
@@ -796,9 +950,16 @@ class Prop(Check):
         "Select.C32_visit_pinned",
         "Select.C32_visit_pinned_false",
         "Select.C32_rrel_string_same_answer",
+        "Select.C32_provider_asked",
+        "Select.C32_answer_wins",
+        "Select.C32_builtin_fallback",
+        "Select.C32_no_fallthrough",
+        "Select.C32_passes_same_provider",
+        "Select.C32_calls_env_indep",
+        "Select.C32_builtin_first_false",
     ]
     DRIVER = "Drivers/Select.lean"
-    QUICK_CASES = 500
+    QUICK_CASES = 560
     THOROUGH_CASES = 4000
     PROCS_THOROUGH = 4  # shared machine while the framework is being built
     RULE = ("select: complete enumeration of the 2^4 subsets of {Rule.attr, *.attr, Rule.*, *.*} x {no grammar RREL, "
@@ -814,7 +975,13 @@ class Prop(Check):
             "histories of one meta-model: 1..3 steps of (re-)registration and model load, 1..3 rules with t / ts(list) / u, "
             "every assignment with its own match rule (no split parameter, '.', '/', '::', '/'-separated without "
             "parameter), names of 2..3 parts, values = RREL strings, RREL provider objects with / without split_string, "
-            "callables, one object bound to several keys.  non-trivial = some "
+            "callables, one object bound to several keys.  env (configuration of the meta-model around the provider "
+            "call): complete enumeration of the 2^4 subsets x grammar RREL y/n x single / list attribute in a meta-model "
+            "with builtins {x: defined in the model too, w: builtin only, y: non-conforming class} while "
+            "textx_tools_support, user classes, auto_init_attributes and a postponing provider rotate (64 cases); half of "
+            "the random select cases and 45 % of the random multi cases get a random env (builtins over the names the "
+            "references write, conforming / other rule's class / foreign object; tools; user classes for target / "
+            "referring rules; custom providers answering Postponed() first; 20 % names no pool holds).  non-trivial = some "
             "reference has at least two of the four keys registered or a grammar RREL together with a registered key "
             "(select), or both configurations resolve at least one reference (rrelsame), or one registered expression is asked "
             "with two delimiters or in two models (multi)")
@@ -824,7 +991,9 @@ class Prop(Check):
                 "assignment: the per-attribute and per-assignment slots visit_assignment fills and the getattr read of "
                 "process_node (Select.visit / refRrel, proved equal to Select.occRrel), the delimiter deduction of RREL.__call__ and the name split of "
                 "find_object_with_path per call (Select.RrelObj.call / callOf), register_scope_providers replacing the "
-                "dictionary in a history of loads (Select.run); not exhibited: what the selected provider then computes (RREL evaluation is "
+                "dictionary in a history of loads (Select.run), the body of the resolve loop around the provider call: "
+                "nothing precedes the call, builtins fall-back block for None, Unknown-object error, Postponed -> next pass "
+                "(Select.resolveRef / resolvePasses); not exhibited: what the selected provider then computes (RREL evaluation is "
                 "C11/C12), ModelLoader side effects of registered +m providers on files without references")
     ASSUMPTIONS = [
         "the RREL parser used for registered strings (rrel.parse) and the RREL sub-grammar used inside textX grammars "
@@ -863,6 +1032,7 @@ class Prop(Check):
                         alt[attr] = grammar_rrel
                         out.append({"kind": "select", "rules": [{"name": "R1", "alts": [alt]}], "reg": reg,
                                     "objs": [{"rule": 0, "alt": 0, "t": "x", "ts": ["y", "x"]}], "origin": "enum"})
+        out += self.enum_env()
         out += self.enum_multi()
         m = max(0, n - len(out))
         n_same = m // 5
@@ -874,6 +1044,46 @@ class Prop(Check):
         for _ in range(n_multi):
             out.append(self.gen_multi(rng))
         return out
+
+    def enum_env(self):
+        """the same 2^4 subsets x grammar RREL y/n x single / list attribute in a meta-model created with builtins:
+        `x` is defined in the model AND a builtin (the model's object must win), `w` is a builtin only (the provider is
+        asked first and finds nothing), `y` is a builtin of a non-conforming class; the other constructor options
+        (textx_tools_support, user classes, auto_init_attributes) and a postponing provider rotate over the cases"""
+        out = []
+        for listattr in (False, True):
+            for grammar_rrel in (None, "pe"):
+                for mask in range(16):
+                    attr = "ts" if listattr else "t"
+                    keys = [f"R1.{attr}", f"*.{attr}", "R1.*", "*.*"]
+                    k = mask + 16 * listattr + 32 * (grammar_rrel is not None)
+                    reg = []
+                    for b in range(4):
+                        if mask >> b & 1:
+                            reg.append([keys[b], {"s": ["pa", "", "^pb", ""][b]} if (k // 3) % 2 and b % 2 == 0
+                                        else {"p": b}])
+                    if k % 3 == 1:
+                        reg.reverse()
+                    alt = {"t": None, "ts": None}
+                    alt[attr] = grammar_rrel
+                    env = {"builtins": [["x", "A"], ["w", "A"], ["y", ["R", "py"][k % 2]]],
+                           "tools": k % 4 == 1, "classes": ["none", "target", "refs", "both"][(k // 2) % 4],
+                           "postpone": [b for b in range(4) if (k + b) % 5 == 0], "auto_init": k % 7 != 3}
+                    out.append({"kind": "select", "rules": [{"name": "R1", "alts": [alt]}], "reg": reg, "env": env,
+                                "objs": [{"rule": 0, "alt": 0, "t": ["x", "w"][k % 2], "ts": ["y", "w", "x"]}],
+                                "origin": "enum-env"})
+        return out
+
+    def gen_env(self, rng, tags, names):
+        """random configuration of the meta-model; `names` = candidates for builtin keys"""
+        env = {"builtins": [], "tools": rng.chance(0.3), "classes": rng.weighted([("none", 5), ("target", 2),
+                                                                                 ("refs", 2), ("both", 2)]),
+               "postpone": [t for t in tags if rng.chance(0.25)], "auto_init": not rng.chance(0.15)}
+        if rng.chance(0.8):
+            for nm in names:
+                if rng.chance(0.5):
+                    env["builtins"].append([nm, rng.weighted([("A", 6), ("R", 1), ("py", 1)])])
+        return env
 
     def enum_multi(self):
         """one provider, two match rules with different delimiters: every ordered pair of match rules x the ways one
@@ -907,8 +1117,14 @@ class Prop(Check):
                         keys = {"two-keys": ["R1.t", "R2.t"], "two-models": ["*.*"]}.get(how, [how])
                         steps = [{"reg": [[key, val] for key in keys] if i == 0 else None, "objs": os_}
                                  for i, os_ in enumerate(objs)]
-                        out.append({"kind": "multi", "tree": tree, "rules": rules, "provs": provs, "steps": steps,
-                                    "origin": "enum-multi"})
+                        case = {"kind": "multi", "tree": tree, "rules": rules, "provs": provs, "steps": steps,
+                                "origin": "enum-multi"}
+                        if k % 3 == 0:
+                            # every third one in a meta-model whose builtins hold the names the references write
+                            names = [m_name(r, attr, path) for st in steps for (_, r, attr, _, path) in m_refs(case, st)]
+                            case["env"] = {"builtins": [[nm, "A"] for nm in dict.fromkeys(names)], "tools": k % 2 == 0,
+                                           "classes": ["none", "target", "refs", "both"][(k // 3) % 4]}
+                        out.append(case)
         return out
 
     def gen_select(self, rng):
@@ -954,7 +1170,25 @@ class Prop(Check):
             if "u" in alt and rng.chance(0.8):
                 o["u"] = rng.choice(NAMES)
             objs.append(o)
-        return {"kind": "select", "rules": rules, "reg": reg, "objs": objs}
+        case = {"kind": "select", "rules": rules, "reg": reg, "objs": objs}
+        if rng.chance(0.5):
+            # the configuration around the provider call: builtins (names the model defines, too, and names it does
+            # not), constructor options, postponing providers; some references to names no pool holds
+            case["env"] = self.gen_env(rng, list(range(tag)), NAMES + GHOSTS)
+            okb = [k for k, kind in case["env"]["builtins"] if kind == "A" and k in GHOSTS]
+
+            def ghost(name):
+                if rng.chance(0.2):
+                    return rng.choice(okb) if okb and rng.chance(0.85) else rng.choice(GHOSTS)
+                return name
+
+            for o in objs:
+                o["t"] = ghost(o["t"])
+                if o.get("ts"):
+                    o["ts"] = [ghost(x) for x in o["ts"]]
+                if o.get("u"):
+                    o["u"] = ghost(o["u"])
+        return case
 
     def gen_multi(self, rng):
         tops, subs, items = ["a", "c"], ["b", "c"], ["x", "y", "z"]
@@ -1036,7 +1270,18 @@ class Prop(Check):
                     o["u"] = name_for(r, "u")
                 objs.append(o)
             steps.append({"reg": new, "objs": objs})
-        return {"kind": "multi", "tree": tree, "rules": rules, "provs": provs, "steps": steps}
+        case = {"kind": "multi", "tree": tree, "rules": rules, "provs": provs, "steps": steps}
+        if rng.chance(0.45):
+            # a meta-model with builtins: keys = names as the references write them (resolvable ones, which the
+            # provider must still answer, and wrongly split / unknown ones, for which the builtin is the fall-back)
+            written = []
+            for st in steps:
+                for (_, r, attr, _, path) in m_refs(case, st):
+                    nm = m_name(r, attr, path)
+                    if nm not in written:
+                        written.append(nm)
+            case["env"] = dict(self.gen_env(rng, [], written), postpone=[])
+        return case
 
     def gen_rrelsame(self, rng):
         cnames = ["A", "B", "C"]
@@ -1139,13 +1384,18 @@ class Prop(Check):
                     {"cls": r["name"], "attr": attr, "g": r["attrs"][attr]["rrel"], "name": m_name(r, attr, path),
                      "split": MATCH[r["attrs"][attr]["m"]][0]} for (_, r, attr, _, path) in m_refs(case, step)]})
             return {"op": "calls", "provs": case["provs"], "steps": steps}
-        k = self.pick_ref(case)
+        k = self.pick_ref(case, obs)
         o, attr = self.ref_list(case)[k]
         r = case["rules"][o["rule"]]
         occs = rule_occs(r)
         i = next(i for i, (ak, a, _) in enumerate(occs) if ak == o["alt"] and a == attr)
-        return {"op": "select", "cls": r["name"], "attr": attr, "occs": [[a, rr] for (_, a, rr) in occs], "i": i,
-                "reg": case["reg"]}
+        env = env_of(case)
+        name = select_names(case)[k]
+        # one reference through the passes of resolve_one_step (op `resolve`: selection + what surrounds the call)
+        return {"op": "resolve", "cls": r["name"], "attr": attr, "occs": [[a, rr] for (_, a, rr) in occs], "i": i,
+                "reg": case["reg"], "name": name, "found": name in NAMES,
+                "postpone": [] if k == len(select_names(case)) - 1 else env["postpone"], "passes": 2,
+                "builtins": [[key, kind == "A"] for key, kind in env["builtins"]]}
 
     def ref_list(self, case):
         out = []
@@ -1155,9 +1405,12 @@ class Prop(Check):
                 out += [(o, attr)] * n
         return out
 
-    def pick_ref(self, case):
+    def pick_ref(self, case, obs=None):
         refs = self.ref_list(case)
         keys = {k for k, _ in case["reg"]}
+        # a load that failed shows one reference only: the one the error is reported at
+        if obs is not None and obs.get("outcome") == "error" and obs.get("ref") is not None and obs["ref"] < len(refs):
+            return obs["ref"]
 
         def score(k):
             o, attr = refs[k]
@@ -1189,13 +1442,40 @@ class Prop(Check):
             if prov != ["rrel", case["expr"]]:
                 return f"model selects {prov} for the registered string"
             return None
-        if obs["outcome"] != "ok":
+        if obs["outcome"] not in ("ok", "error"):
             return f"implementation did not load: {obs}"
-        k = self.pick_ref(case)
+        k = self.pick_ref(case, obs)
+        name = select_names(case)[k]
+        # the model's trace for this reference, in the shape of `demanded`
+        calls = [c[1] for c in out["calls"] if c[0] == "custom"]
+        if any(c != prov for c in out["calls"]) or not out["calls"]:
+            return f"reference #{k}: model selects {prov} but lists the calls {out['calls']}"
+        res = out["result"]
+        if res[0] == "bound":
+            origin = res[1]
+            if origin.startswith("builtin:"):
+                dem = (calls, ("bound", origin, False))
+            elif origin.startswith("custom:"):
+                dem = (calls, ("bound", "pc", False))
+            elif origin.startswith("rrel:"):
+                dem = (calls, ("bound", pool_of(origin[5:]), False))
+            else:
+                dem = (calls, ("bound", "pd", True))
+        elif res[0] == "unknown":
+            dem = (calls, ("unknown",))
+        else:
+            return f"reference #{k}: model leaves the reference delayed after two passes: {out}"
+        if obs["outcome"] == "error":
+            if obs.get("ref") is None:
+                return f"implementation did not load: {obs}"
+            if dem[1][0] != "unknown" or not obs.get("unknown") or obs.get("custom") != calls:
+                return (f"reference #{k} `{name}`: model: calls {out['calls']}, result {res}; implementation fails there "
+                        f"with err_type {obs.get('err_type')!r} after asking custom providers {obs.get('custom')}")
+            return None
         ref = obs["refs"][k] if k < len(obs["refs"]) else None
-        exp = tuple(prov)
-        if ref is None or not matches(exp, ref):
-            return f"reference #{k}: model selects {exp}, implementation called {describe(ref) if ref else None}"
+        if ref is None or dem[1][0] == "unknown" or not shown(dem, ref):
+            return (f"reference #{k} `{name}`: model: calls {out['calls']}, result {res}; implementation called "
+                    f"{describe(ref) if ref else None}")
         return None
 
     # ---------------------------------------------------------------- oracle
@@ -1220,15 +1500,14 @@ class Prop(Check):
                     return (f"model {i + 1}: registered RREL strings / provider objects give {m_strip(ob)}, the same "
                             f"expressions written in the grammar give {m_strip(obs['grammar'][i])}")
             return None
-        if obs["outcome"] != "ok":
+        if obs["outcome"] not in ("ok", "error"):
             return f"model does not load: {obs}"
         exp = expected_select(case)
-        if len(exp) != len(obs["refs"]):
-            return f"{len(obs['refs'])} references observed, {len(exp)} written"
-        for k, (e, ref) in enumerate(zip(exp, obs["refs"])):
-            if not matches(e, ref):
-                return (f"reference #{k} ({ref['cls']}.{ref['attr']}[{ref['j']}]): the documented precedence selects "
-                        f"{e}, the implementation called {describe(ref)}")
+        names = select_names(case)
+        d = check_select(case, obs, [demanded(case, e, n, k == len(exp) - 1) for k, (e, n) in enumerate(zip(exp, names))],
+                         "the documented precedence says:")
+        if d:
+            return d
         if obs.get("extra_calls"):
             return f"{obs['extra_calls']} provider call(s) for positions that hold no reference"
         return None
@@ -1256,6 +1535,13 @@ class Prop(Check):
     # ---------------------------------------------------------------- shrinking / search
     def shrink_multi(self, case):
         steps = case["steps"]
+        if case.get("env"):
+            env = env_of(case)
+            for key, neutral in (("tools", False), ("classes", "none"), ("auto_init", True)):
+                if env[key] != neutral:
+                    yield dict(case, env=dict(env, **{key: neutral}))
+            for i in range(len(env["builtins"])):
+                yield dict(case, env=dict(env, builtins=env["builtins"][:i] + env["builtins"][i + 1:]))
         for i in range(len(steps)):
             if len(steps) > 1:
                 rest = [dict(s) for s in steps[:i] + steps[i + 1:]]
@@ -1307,6 +1593,18 @@ class Prop(Check):
         for i in range(len(case["objs"])):
             if len(case["objs"]) > 1:
                 yield dict(case, objs=case["objs"][:i] + case["objs"][i + 1:])
+        if case.get("env"):
+            env = env_of(case)
+            for key, neutral in (("tools", False), ("classes", "none"), ("postpone", []), ("auto_init", True)):
+                if env[key] != neutral:
+                    yield dict(case, env=dict(env, **{key: neutral}))
+            for i in range(len(env["builtins"])):
+                yield dict(case, env=dict(env, builtins=env["builtins"][:i] + env["builtins"][i + 1:]))
+            for i, o in enumerate(case["objs"]):
+                if len(o.get("ts") or []) > 1:
+                    for q in range(len(o["ts"])):
+                        yield dict(case, objs=case["objs"][:i] + [dict(o, ts=o["ts"][:q] + o["ts"][q + 1:])]
+                                   + case["objs"][i + 1:])
         for i in range(len(case["reg"])):
             yield dict(case, reg=case["reg"][:i] + case["reg"][i + 1:])
         for i, o in enumerate(case["objs"]):
@@ -1359,8 +1657,22 @@ class Prop(Check):
                         shared["references"] += 1
                         if call[0] == "find":
                             shared["delimiters"][call[2]] = shared["delimiters"].get(call[2], 0) + 1
+        envs = {"cases": 0, "builtins": 0, "tools": 0, "classes": 0, "postpone": 0, "refs_to_builtin_names": 0,
+                "refs_unknown": 0}
+        for c in cases:
+            if c.get("env"):
+                e = env_of(c)
+                envs["cases"] += 1
+                for key in ("builtins", "tools", "postpone"):
+                    envs[key] += 1 if e[key] else 0
+                envs["classes"] += e["classes"] != "none"
+                if c["kind"] == "select":
+                    keys = {k for k, _ in e["builtins"]}
+                    for nm in select_names(c):
+                        envs["refs_to_builtin_names"] += nm in keys
+                        envs["refs_unknown"] += nm in GHOSTS and not conforming(c, nm)
         loads = sum(o.get("loads", 2) for o in obs if isinstance(o, dict))
         return {"distribution": {"kinds": kinds, "references": refs, "expected_provider_kinds": sel, "model_loads": loads,
-                                 "multi": shared},
+                                 "multi": shared, "env": envs},
                 "exhaustive": "2^4 key subsets x grammar RREL y/n x single/list x objects/strings for one reference (128 cases)",
                 "translation_units": {"Gen.providerOrder": read_provider_order()}}
